@@ -92,12 +92,13 @@ Variable c : cfg.
 
 Definition kstate := (list Z * state)%type.
 Definition mk (s : state) : kstate := let s' := normalize nin nout c s in (key sym nin nout c s', s').
-Definition has_key (k : list Z) (l : list (list Z)) : bool := existsb (lz_eqb k) l.
+Definition seen_t := list (list Z).
+Definition has_key (k : list Z) (l : seen_t) : bool := existsb (lz_eqb k) l.
 
-Fixpoint add_all (new : list kstate) (seen : list (list Z)) (acc : list kstate) : list kstate * list (list Z) :=
+Fixpoint add_all (new : list kstate) (seen : seen_t) (acc : list kstate) : list kstate * seen_t :=
   match new with
   | [] => (acc, seen)
-  | (k, s) :: r => if has_key k seen then add_all r seen acc else add_all r (k :: seen) (acc ++ [(k, s)])
+  | (k, s) :: r => if has_key k seen then add_all r seen acc else add_all r (k :: seen) ((k, s) :: acc)
   end.
 
 Definition somes {A} (l : list (option A)) : list A :=
@@ -108,7 +109,7 @@ Definition succs (s : state) : list state :=
   somes (flat_map (fun w => [step c s (EW w false); step c s (EW w true)]) (seq 0 (par c)) ++ [step c s ECloser]).
 
 (* all quiescent states reachable by internal moves; the bool says the exploration completed *)
-Fixpoint close_loop (fuel : nat) (todo : list kstate) (seen : list (list Z)) (quies : list kstate) : list kstate * bool :=
+Fixpoint close_loop (fuel : nat) (todo : list kstate) (seen : seen_t) (quies : list kstate) : list kstate * bool :=
   match fuel with
   | O => (quies, match todo with [] => true | _ => false end)
   | S f =>
@@ -116,7 +117,7 @@ Fixpoint close_loop (fuel : nat) (todo : list kstate) (seen : list (list Z)) (qu
       | [] => (quies, true)
       | (k, s) :: r =>
           match succs s with
-          | [] => close_loop f r seen (quies ++ [(k, s)])
+          | [] => close_loop f r seen ((k, s) :: quies)
           | nexts =>
               let '(todo', seen') := add_all (map mk nexts) seen r in
               close_loop f todo' seen' quies
@@ -124,7 +125,7 @@ Fixpoint close_loop (fuel : nat) (todo : list kstate) (seen : list (list Z)) (qu
       end
   end.
 
-Definition FUEL : nat := 4000.
+Definition FUEL : nat := 4000.   (* more does not pay: the seen-set is a list, exploration is quadratic; exhausted = inconclusive *)
 
 Definition closure (l : list state) : list kstate * bool :=
   let '(todo, seen) := add_all (map mk l) [] [] in close_loop FUEL todo seen [].
@@ -190,10 +191,13 @@ Fixpoint run (l : list state) (ms : list (move * outcome)) : bool * bool :=
       | [] => (false, true)
       | s0 :: _ =>
           let '(l', ok) := sleep_loop 200 l (now s0 + d) in
+          if negb ok then (false, false) else
           let '(a, ok') := run l' r in (a, ok && ok')
       end
   | (m, o) :: r =>
       let '(q, ok) := closure (flat_map (apply_move m o) l) in
+      if negb ok then (false, false)      (* out of fuel: inconclusive, do not pay for it again at every later move *)
+      else
       match q with
       | [] => (false, ok)
       | _ => let '(a, ok') := run (map snd q) r in (a, ok && ok')
@@ -205,9 +209,16 @@ Definition accepts_from (ms : list (move * outcome)) : bool * bool :=
   let '(a, ok') := run (map snd q) ms in (a, ok && ok').
 End Accept.
 
-Definition accepts (p : pcase) : bool :=
+(* (a run of the model producing the trace was found, the exploration of the internal steps was complete).
+   A found run is a run, complete exploration or not; a trace is REJECTED only when the complete exploration finds
+   none; when the fuel of an exploration runs out before a run is found the case is INCONCLUSIVE (counted in the
+   digest, neither a mismatch nor a confirmation) *)
+Definition verdict (p : pcase) : bool * bool :=
   let sym := match stage p with SFork _ _ _ => true | _ => false end in
-  let '(a, ok) := accepts_from sym (length (icaps p)) (nouts_of p) (cfg_of_case p) (moves p) in a && ok.
+  accepts_from sym (length (icaps p)) (nouts_of p) (cfg_of_case p) (moves p).
+Definition accepts (p : pcase) : bool := fst (verdict p).
+Definition rejects (p : pcase) : bool := let '(a, ok) := verdict p in negb a && ok.
+Definition inconclusive (p : pcase) : bool := let '(a, ok) := verdict p in negb a && negb ok.
 
 (* ---------- what the observations say (used by the property oracles) ---------- *)
 Definition sent_on (i : nat) (ms : list (move * outcome)) : list Z :=
@@ -238,4 +249,4 @@ Record case := mkC { pc : pcase; calls : list Z; crashed : bool; sched : N; ctim
 
 (* free-running cases (sched = 9) are pseudo-traces of complete runs: only the oracle judges them *)
 Definition mismatches (cs : list case) : list N :=
-  idx_where (fun c => if N.eqb (sched c) 9 then crashed c else negb (accepts (pc c)) || crashed c) 0%N cs.
+  idx_where (fun c => if N.eqb (sched c) 9 then crashed c else rejects (pc c) || crashed c) 0%N cs.
